@@ -145,8 +145,21 @@ func callName(ce *ast.CallExpr) string {
 
 func init() {
 	register("TablesStatus", "response path of the v2 server: default statuses, error-response call sites, ServeHTTP tail (C08)", func(o *out) {
+		genTablesStatus(o, filepath.Join(repo, "v2", "restli"), statusRegfnsV2)
+	})
+}
+
+// the exported registration functions every run must find (v2); the root module has no RegisterPartialUpdateWithReturnEntity
+// (t_roothttp.go registers TablesStatusRoot = the same extraction from /repo/restli)
+var statusRegfnsV2 = []string{"RegisterGet", "RegisterCreate", "RegisterCreateWithReturnEntity", "RegisterUpdate", "RegisterPartialUpdate",
+	"RegisterPartialUpdateWithReturnEntity", "RegisterDelete", "RegisterGetAll", "RegisterBatchGet", "RegisterBatchCreate",
+	"RegisterBatchCreateWithReturnEntity", "RegisterBatchUpdate", "RegisterBatchPartialUpdate", "RegisterBatchDelete",
+	"RegisterFinder", "RegisterFinderWithMetadata", "RegisterAction", "RegisterActionWithResults"}
+
+func genTablesStatus(o *out, dir string, want []string) {
+	{
 		hs := loadHTTPStatus()
-		p := load(filepath.Join(repo, "v2", "restli"))
+		p := load(dir)
 		o.raw("Local Open Scope Z_scope.\n\n")
 
 		// ---- net/http StatusText
@@ -237,10 +250,6 @@ func init() {
 			}
 		}
 		sort.Slice(regs, func(i, j int) bool { return regs[i].name < regs[j].name })
-		want := []string{"RegisterGet", "RegisterCreate", "RegisterCreateWithReturnEntity", "RegisterUpdate", "RegisterPartialUpdate",
-			"RegisterPartialUpdateWithReturnEntity", "RegisterDelete", "RegisterGetAll", "RegisterBatchGet", "RegisterBatchCreate",
-			"RegisterBatchCreateWithReturnEntity", "RegisterBatchUpdate", "RegisterBatchPartialUpdate", "RegisterBatchDelete",
-			"RegisterFinder", "RegisterFinderWithMetadata", "RegisterAction", "RegisterActionWithResults"}
 		have := map[string]bool{}
 		for _, r := range regs {
 			have[r.name] = true
@@ -251,7 +260,7 @@ func init() {
 			}
 		}
 		o.raw("Inductive adapter := AdBody | AdNoBody | AdFinder | AdAction.\n\n")
-		o.raw("(* the exported registration functions of v2/restli *)\nInductive regfn : Set :=\n")
+		o.raw("(* the exported registration functions of " + rel(dir) + " *)\nInductive regfn : Set :=\n")
 		for _, r := range regs {
 			o.raw("  | " + r.name + "\n")
 		}
@@ -606,7 +615,7 @@ func init() {
 			v, pos := p.mustString(c[1])
 			o.str(c[0], v, pos)
 		}
-	})
+	}
 }
 
 func stExprString(e ast.Expr) string {
